@@ -269,6 +269,10 @@ def vec_len(M, st, v):
                 total = sx.Bin('Add', total, seg[2], 64, False)
         return total
     if v[0] in ('unk', 'unkvar'):
+        if v[0] == 'unk':
+            ty = M.crate_by_name(v[3]).types[v[1]]
+            if ty["k"] == "array" and ty.get("len") is not None:
+                return C(ty["len"], 64, False)
         s = S(v[2] + "#len", 64, False)
         st.doms.setdefault(s, sx.dom_range(0, 1 << 62))
         return s
@@ -670,7 +674,7 @@ def opt_as_ref(M, st, fr, t, args, site):
 # functions whose opaque result may be named by their arguments (pure lookups between mutations)
 PURE = re.compile(r"^context::Context::get_|^<context::CommonContext as context::Context>::get_|^expr::Expr::run$|^device::Device::|"
                   r"^std::collections::HashMap::<K, V, S, A>::get$|^std::collections::BTreeSet::<T, A>::get$|"
-                  r"^std::path::Path::|^std::ffi::OsStr::|^core::str::<impl str>::(trim|parse|chars|lines)|^instruction::")
+                  r"^std::path::Path::|^std::ffi::OsStr::|^core::str::<impl str>::(trim|parse|chars|lines)|^instruction::|directive::GetData>::|^directive::Operand::")
 
 
 # ------------------------------------------------------------------------------------------------ literal tables (maplit)
@@ -708,3 +712,131 @@ def map_insert(M, st, fr, t, args, site):
     st.events.append(('map-insert', v[1], args[1], args[2], site))
     rty = M.ret_ty(fr, t)
     return mk_enum(M, fr, rty, 0, [])
+
+
+# ------------------------------------------------------------------------------------------------ iterators (loop heads)
+# An iterator over an input sequence is ('iter', source name, adapters); `next` forks into None and Some(element) where the
+# element is the named unknown  <source>[i]  — one loop iteration then stands for any position in the sequence.
+@pattern(r"^<&'a std::vec::Vec<T, A> as std::iter::IntoIterator>::into_iter$|^core::slice::<impl \[T\]>::iter$|^std::vec::Vec::<T, A>::iter$|"
+         r"^<&'a \[T\] as std::iter::IntoIterator>::into_iter$|^<std::vec::Vec<T, A> as std::iter::IntoIterator>::into_iter$|^core::slice::<impl \[T\]>::iter_mut$")
+def make_iter(M, st, fr, t, args, site):
+    v = deref_arg(M, st, args[0])
+    if v[0] in ('unk', 'unkvar'):
+        by_value = "as std::iter::IntoIterator>::into_iter" in t["callee"]["rpath"] and t["callee"]["rpath"].startswith("<std::vec::Vec")
+        return ('iter', v[2], (), v[3], by_value)
+    return NotImplemented
+
+
+@pattern(r"^std::iter::Iterator::(enumerate|skip|rev|take|step_by|filter|map|peekable|chain|zip|cloned|copied)$")
+def iter_adapter(M, st, fr, t, args, site):
+    v = args[0]
+    if v[0] != 'iter':
+        return NotImplemented
+    nm = t["callee"]["rpath"].rsplit("::", 1)[-1]
+    extra = M.describe(st, args[1]) if len(args) > 1 else ""
+    return ('iter', v[1], v[2] + ((nm, extra),), v[3], v[4])
+
+
+@pattern(r" as std::iter::Iterator>::next$|^std::iter::Iterator::next$")
+def iter_next(M, st, fr, t, args, site):
+    a = args[0]
+    v = deref_arg(M, st, a)
+    if v[0] != 'iter':
+        return NotImplemented
+    rty = M.ret_ty(fr, t)
+    if rty is None:
+        return NotImplemented
+    ot = fr.crate.types[rty]
+    if ot["k"] != "adt" or ot["path"] != "std::option::Option":
+        return NotImplemented
+    ety = ot["args"][0]
+    et = fr.crate.types[ety]
+    ads = [x[0] for x in v[2]]
+    if any(x not in ("enumerate", "skip", "rev", "take", "step_by", "filter", "peekable", "chain") for x in ads):
+        return NotImplemented
+    st.events.append(('iter-next', v[1], v[2], site))
+    nth = st.notes.get("iter:" + v[1], 0)
+    st.notes["iter:" + v[1]] = nth + 1
+    elem_name = "%s[i]" % v[1] if nth == 0 else "%s[i+%d]" % (v[1], nth)
+    isym = S("i(%s)" % v[1], 64, False)
+    st.doms.setdefault(isym, sx.dom_range(0, 1 << 62))
+
+    def elem_of(ty_ix):
+        tt = fr.crate.types[ty_ix]
+        if tt["k"] == "ref":
+            return ('ref', ('V', elem_name, tt["to"], v[3]), ())
+        return ('unk', ty_ix, elem_name, v[3])
+
+    if "enumerate" in ads and et["k"] == "tuple" and len(et["of"]) == 2:
+        some = ('agg', ety, 0, (('int', isym), elem_of(et["of"][1])), fr.crate.name)
+    else:
+        some = elem_of(ety)
+    none_s = S("more(%s)" % v[1] if nth == 0 else "more%d(%s)" % (nth, v[1]), 1, False)
+    st.doms.setdefault(none_s, sx.dom_set([0, 1]))
+    budget = getattr(M, "iter_budget", None)
+    if budget is not None and nth >= budget:
+        # iteration budget used up on this path: the sequence ends here (paths then run on to the function's exit)
+        return ('fork', [([(none_s, False)], mk_enum(M, fr, rty, 0, []), [])])
+    return ('fork', [([(none_s, False)], mk_enum(M, fr, rty, 0, []), []),
+                     ([(none_s, True)], mk_enum(M, fr, rty, 1, [some]), [])])
+
+
+@pattern(r"^std::iter::range::<impl std::iter::Iterator for std::ops::Range<A>>::next$")
+def range_next(M, st, fr, t, args, site):
+    a = args[0]
+    if a[0] != 'ref':
+        return NotImplemented
+    v = M.read(st, a[1], a[2])
+    if v[0] != 'agg' or len(v[3]) != 2:
+        return NotImplemented
+    lo = M.as_int(st, v[3][0])
+    hi = M.as_int(st, v[3][1])
+    if lo is None or hi is None:
+        return NotImplemented
+    rty = M.ret_ty(fr, t)
+    bits, signed = sx.ty_of(lo)
+    st.events.append(('range-next', sx.show(lo), sx.show(hi), site, lo, hi))
+    budget = getattr(M, "iter_budget", None)
+    if budget is not None:
+        k = "range:%s:%d" % site
+        used = st.notes.get(k, 0)
+        st.notes[k] = used + 1
+        if used >= budget:
+            return ('fork', [([], mk_enum(M, fr, rty, 0, []), [])])
+    nxt = ('agg', v[1], v[2], (('int', sx.Bin('Add', lo, C(1, bits, signed), bits, signed)), v[3][1])) + tuple(v[4:])
+    more = sx.Cmp('Lt', lo, hi)
+    # Some: the range advances; None: unchanged
+    out = []
+    s2assump = [(more, True)]
+    out.append((s2assump, mk_enum(M, fr, rty, 1, [('int', lo)]), [('range-advance', a[1], a[2], nxt)]))
+    out.append(([(more, False)], mk_enum(M, fr, rty, 0, []), []))
+    return ('fork', out)
+
+
+# ------------------------------------------------------------------------------------------------ vec![a, b, ..] lowering
+def _find_arr(v, depth=0):
+    if v is None or depth > 6:
+        return None
+    if v[0] == 'arr':
+        return v
+    if v[0] == 'agg':
+        for f in v[3]:
+            r = _find_arr(f, depth + 1)
+            if r is not None:
+                return r
+    return None
+
+
+@pattern(r"^std::boxed::box_assume_init_into_vec_unsafe$|^std::slice::<impl \[T\]>::into_vec$")
+def box_into_vec(M, st, fr, t, args, site):
+    a = args[0]
+    if a[0] == 'unk':
+        cell = None
+        for c in st.cells:
+            if c[0] == 'V' and c[1] == a[2] + "*":
+                cell = c
+        if cell is not None:
+            arr = _find_arr(st.cells[cell])
+            if arr is not None:
+                return vec_value([('items', tuple(arr[1]))])
+    return NotImplemented
